@@ -194,6 +194,7 @@ pub fn interface_refs(prog: &Program, t: Top) -> BTreeSet<Top>
 			// the value of an imported constant is needed too (array lengths)
 			expr_refs(prog, &prog.consts[i].init, &mut out);
 		}
+		Top::Raw(_) => (),
 	}
 	out.remove(&t);
 	out
@@ -295,6 +296,7 @@ pub fn split(c: &mut Choices, prog: &Program, nfiles: usize) -> Split
 				Top::Const(i) => base.consts[*i].public = true,
 				Top::Struct(i) => base.structs[*i].public = true,
 				Top::Func(i) => base.funcs[*i].public = true,
+				Top::Raw(_) => (),
 			}
 		}
 	}
